@@ -352,8 +352,21 @@ class Runner:
             before = sim.eventlist().size()
             try:
                 child = a[1] if kind == "now" else a[2]
+                badsig = child in self.prog.get("badsig", ())
                 if kind == "pre":
                     ev = sim.schedule_event(model.prebuilt[a[2]])
+                elif badsig:
+                    # fault: the event is scheduled with a keyword its handler does not
+                    # take; the call itself fails (no frame of the handler ever exists)
+                    self.fault("handler_call_mismatch")
+                    if kind == "now":
+                        ev = sim.schedule_event_now(model, "h", a[2], eid=a[1], bogus=1)
+                    elif kind == "rel":
+                        ev = sim.schedule_event_rel(self.tv(a[1]), model, "h", a[3],
+                                                    eid=a[2], bogus=1)
+                    else:
+                        ev = sim.schedule_event_abs(self.tv(a[1]), model, "h", a[3],
+                                                    eid=a[2], bogus=1)
                 elif self.prog.get("custom_events") in ("subclass", "both") and child % 3 != 0:
                     # objects of SimEvent subclasses, mixed with plain SimEvents
                     if kind == "now":
@@ -419,6 +432,8 @@ class Runner:
                                   % owner)
         elif kind == "cmd":
             self.do_cmd_from_callback(a[1:], "handler", owner, idx)
+        elif kind == "nested":
+            self.run_nested(a[1], owner, idx)
         elif kind == "strategy":
             # documented: the error strategy can be changed during the run
             self.count("strategy_changed_mid_run")
@@ -495,6 +510,74 @@ class Runner:
             return "refused:ValueError"
         except Exception as e:
             return "refused:" + type(e).__name__
+
+    def run_nested(self, spec, owner, idx):
+        """A second simulator in the same process, created, run to its end and
+        cleaned up from inside a handler (or construct_model) of the first one: a
+        nested what-if run.  Neither simulator may notice the other."""
+        self.count("nested_simulator_run")
+        n = spec["n"]
+        log = []
+        ends = []
+
+        class _Nested(DSOLModel):
+            def construct_model(m):
+                for k in range(1, n + 1):
+                    m.simulator.schedule_event_abs(float(k), m, "tick", k=k)
+
+            def tick(m, k):
+                log.append(k)
+
+        class _End(EventListener):
+            def notify(l, event):
+                ends.append(event.timestamp)
+        simb = DEVSSimulatorFloat("nested")
+        mb = _Nested(simb)
+        bad = None
+        try:
+            simb.initialize(mb, Replication("nested", 0, 0.0, 0.0, float(n + 1)))
+            simb.add_listener(ReplicationInterface.END_REPLICATION_EVENT, _End())
+            guard = 0
+            first = True
+            while simb.run_state.name != "ENDED" and guard < 12:
+                guard += 1
+                try:
+                    if first and spec.get("bound") is not None:
+                        simb.run_up_to_including(float(spec["bound"]))
+                    else:
+                        simb.start()
+                except DSOLError:
+                    # refused: the two state fields were read while the run thread was
+                    # between them (e.g. replication already ENDED, run state about to
+                    # follow); look again
+                    detsim.coop_sleep(0.001)
+                    continue
+                first = False
+                polls = 0
+                while simb.is_starting_or_running() and polls < 20000:
+                    detsim.coop_sleep(0.001)
+                    polls += 1
+                # (STOPPING and ENDING are transient: the run thread finishes by itself)
+                while (simb.run_state.name == "STOPPING"
+                       or simb.replication_state.name == "ENDING") and polls < 40000:
+                    detsim.coop_sleep(0.001)
+                    polls += 1
+                if first is False and spec.get("bound") is not None and guard == 1:
+                    exp1 = [k for k in range(1, n + 1) if k <= spec["bound"]]
+                    if log != exp1:
+                        bad = "after run_up_to_including(%s) the nested simulator had " \
+                              "executed %s, expected %s" % (spec["bound"], log, exp1)
+                        break
+            final = simb.run_state.name
+            simb.cleanup()        # (waits for the run thread: its last notification included)
+            if bad is None and (log != list(range(1, n + 1))
+                                or final != "ENDED" or len(ends) != 1):
+                bad = "the nested simulator executed %s (expected 1..%d), ended in state " \
+                      "%s with %d END_REPLICATION notifications" \
+                      % (log, n, final, len(ends))
+        except Exception as e:     # noqa: BLE001 - reported as a finding of the run
+            bad = "the nested simulator raised %s: %s" % (type(e).__name__, e)
+        self.hist.H.append(("nested", owner, idx, bad))
 
     # -- commands ----------------------------------------------------------
     def snapshot(self):
